@@ -328,6 +328,10 @@ class pLSCF_mpe_havoc(_MpeHavoc):
 
 class _MpeMethod(Contract):
     props = ("C11",)
+    bounded_driver = {"driver": "flow_mpe", "inputs": {}}
+
+    def witness(self, o):
+        return dict(self.bounded_driver)
     generic_replay = False
     callable_modular = False
     compare_state = False
